@@ -328,3 +328,66 @@ func VerifBatchPrompt(L int, batchSize int, slowFull int) {
 	}
 	vCover("batch-prompt")
 }
+
+// VerifBatchWaiters: several successive waiters, some of which give up. A burst of L items, then a
+// silent source; the consumer calls Next `calls` times, and the context of every call whose bit is
+// set in cancelMask is cancelled at an arbitrary moment (before, during or after the call - the
+// scheduler decides). A waiter that gives up gets its context's error and loses nothing; the
+// batches handed to the later waiters are still non-empty, within batchSize, in source order and
+// underfilled only after maxWait, and at rest nothing is held back from a consumer that is still
+// waiting.
+// args: items L, batchSize, consumer calls, cancelMask (bit i: call i's context gets cancelled)
+// (every schedule of this harness is out of reach - 20 minutes did not finish it -, so all cases
+// run under a preemption bound)
+//verif:case C11 quick VerifBatchWaiters 1 2 3 1 @fires=3 @noreplay=1 @arith=1 @preempt=1
+//verif:case C11 thorough VerifBatchWaiters 1 2 3 1..3 @fires=3 @noreplay=1 @arith=1 @preempt=2
+//verif:case C11 thorough VerifBatchWaiters 2 2 3 1 @fires=3 @noreplay=1 @arith=1 @preempt=1
+func VerifBatchWaiters(L int, batchSize int, calls int, cancelMask int) {
+	src := &vQuietSrc{n: L}
+	maxWait := time.Duration(vNondetInt("maxWait"))
+	vAssume(vAnd(maxWait > 0, maxWait < 1<<40))
+	out := Batch[int](src, maxWait, batchSize)
+	got, done := 0, 0
+	go func() {
+		for call := 0; call < calls; call++ {
+			ctx := context.Background()
+			cancellable := cancelMask&(1<<call) != 0
+			if cancellable {
+				cctx, cancel := context.WithCancel(ctx)
+				ctx = cctx
+				go func() { cancel() }()
+			}
+			batch, err := out.Next(ctx)
+			now := time.Now()
+			if err != nil {
+				vAssert(cancellable && err == context.Canceled, "C11:batchwaiters/only-a-cancelled-call-fails-and-with-its-context-error")
+				vAtomic(func() { done++ })
+				continue
+			}
+			vAssert(len(batch) >= 1, "C11:batch/non-empty")
+			vAssert(len(batch) <= batchSize, "C11:batch/at-most-batchsize")
+			for i, v := range batch {
+				vAssert(v == got+i, "C11:batch/items-in-source-order-nothing-lost-or-duplicated")
+			}
+			var oldest time.Time
+			vAtomic(func() {
+				if got < len(src.handed) {
+					oldest = src.handed[got]
+				}
+			})
+			if len(batch) >= 1 && len(batch) < batchSize {
+				vAssert(now.Sub(oldest) >= maxWait, "C11:batch/underfilled-batch-only-after-maxwait")
+			}
+			vAtomic(func() {
+				got += len(batch)
+				done++
+			})
+		}
+	}()
+	vQuiesce()
+	vAssert(got == L || done == calls, "C11:batchquiet/nothing-held-back-from-a-waiting-consumer")
+	vCover("batch-waiters")
+	if vNative() {
+		out.Close()
+	}
+}
